@@ -295,7 +295,7 @@ func compareDenotation(want, got *gram.Grammar, inputs []string) string {
 			rs := []rune(in)
 			a := refpeg.Run(want, e, rs, 100000)
 			b := refpeg.Run(got, e, rs, 100000)
-			if a.Budget || b.Budget {
+			if a.Budget || b.Budget || a.Unspecified || b.Unspecified {
 				continue
 			}
 			if a.OK != b.OK || a.End != b.End || refToksOf(refpeg.Tokens(a.Root)) != refToksOf(refpeg.Tokens(b.Root)) {
@@ -434,6 +434,15 @@ func c10Gen(t *rapid.T) synCase {
 						if gram.ClassSafe(cand) {
 							e.Items = cand
 						}
+					}
+				}
+				if e.CI && rapid.IntRange(0, 2).Draw(t, "mixedci?") == 0 {
+					// a case-insensitive range whose bounds mix a letter with a caseless
+					// character; only inputs on which both readings agree are judged
+					it := rapid.SampledFrom([]gram.Item{{Lo: 'a', Hi: '~'}, {Lo: 'a', Hi: '{'}, {Lo: '0', Hi: 'z'}, {Lo: '0', Hi: 'f'}, {Lo: '!', Hi: 'c'}, {Lo: 'x', Hi: '}'}, {Lo: '9', Hi: 'b'}}).Draw(t, "mixedci")
+					cand := append(append([]gram.Item{}, e.Items...), it)
+					if gram.ClassSafe(cand) {
+						e.Items = cand
 					}
 				}
 			case gram.KAct:
